@@ -5,7 +5,8 @@ ID = 'C05'
 LEVEL = 'exploration'
 RULE = ('case = (classic-algebra term: text/concat/nest/group/line/softline/hardline/always_break/align, width >= 1, '
         'ribbon fraction in (0,1], strategy). Exhaustive: all terms <= 5 nodes (quick) / <= 6 (thorough) over leaves '
-        '{a, bbb, line, soft, hard} x widths {1..8} x fractions {1.0, 0.6, 0.3} x both strategies; random: terms up to '
+        '{a, bbb, line, soft, hard} x widths {1..8} x fractions {1.0, 0.6, 0.3} x both strategies, plus templates of two '
+        'groups sharing a line under different nest/align indentation over text lengths x widths 1..14/23; random: terms up to '
         '16 leaves with text lengths 1..7. The flat/broken decision of every group is recovered by replaying the term '
         'against the emitted stream (all reproducing assignments are enumerated; the oracle quantifies existentially). '
         'Oracle: in some reproducing assignment every flat group with a direct line/softline has its whole output line '
@@ -32,6 +33,32 @@ def enumerate_cases(tier):
             for f in FRACS:
                 for s in ('smart', 'fast'):
                     yield {'t': t, 'w': w, 'frac': f, 'strategy': s}
+    yield from templates(tier)
+
+
+def templates(tier):
+    """Shapes too large for the node-bounded enumeration: two or three groups sharing one line with different
+    indentation (nest / align) or separated by forced breaks - each group's budget differs."""
+    import itertools
+    T = lambda n: ['t', 'x' * n]
+    g = lambda a, b: ['grp', ['cat', [T(a), ['line'], T(b)]]]
+    lens = (1, 3) if tier == 'quick' else (1, 2, 4)
+    widths = list(range(1, 15)) if tier == 'quick' else list(range(1, 24))
+    for a, b, c, d in itertools.product(lens, repeat=4):
+        for k in (0, 2, 4):
+            for s in (0, 2):
+                second = ['nest', k, ['cat', [T(s), g(c, d)]]] if s else ['nest', k, g(c, d)]
+                docs = [
+                    ['cat', [g(a, b), second]],
+                    ['cat', [g(a, b), ['align', g(c, d)]]],
+                    ['nest', k, ['cat', [T(1), ['hard'], T(2), ['cat', [g(a, b), ['line'], g(c, d)]]]]],
+                    ['grp', ['cat', [T(a), ['line'], ['nest', k, g(c, d)], ['soft'], T(b)]]],
+                ]
+                for doc in docs:
+                    for w in widths:
+                        for f in (1.0, 0.6, 0.3):
+                            for strat in ('smart', 'fast'):
+                                yield {'t': doc, 'w': w, 'frac': f, 'strategy': strat}
 
 
 def strategy(tier):
